@@ -1,5 +1,6 @@
 import Babble.Model.Codec
 import Babble.Proofs.Admission
+import Babble.Proofs.ByteCodec
 /-! # C15 — encoding identity (PARTIAL)
     Proved: the compact wire form is lossless between nodes whose histories satisfy the admission
     invariant (C07): the receiver resolves the (creator, index) pairs to exactly the parents' hashes,
@@ -13,6 +14,13 @@ import Babble.Proofs.Admission
     each taken from the corresponding field of the event body (`wire_form_complete`,
     `wire_form_sources`) — a field dropped, swapped or taken from elsewhere in `MarshalDB`,
     `UnmarshalDB` or `ToWire` breaks these obligations.
+
+    Byte level (`Babble.ByteCodec`, compared with the Go functions value for value): the two string
+    encodings every key, hash and signature travels in are lossless — `DecodeFromString ∘
+    EncodeToString` and `DecodeSignature ∘ EncodeSignature` are the identity for *every* byte string
+    and *every* pair of non-negative integers (`hex_roundtrip`, `signature_roundtrip`), and the
+    canonical spellings are injective (`hex_spelling_injective`, `signature_spelling_injective`):
+    equal strings ⇔ equal values, which is what lets hashes and signatures be compared as strings.
 
     Not modelled: `encoding/json`, the `ugorji` codec, base64, SHA-256.  The JSON transport of
     blocks, frames and events, the database form, and the independence of the frame hash from map
@@ -119,5 +127,32 @@ theorem wire_roundtrip (s s' : St) (hI : AdmInv s.events) (hI' : AdmInv s'.event
     simp only [h1, h2]
   · unfold St.readWireParents
     simp only [h1', h2']
+
+/-! ## byte level: the hexadecimal and base-36 string forms -/
+
+/-- **hex_roundtrip**: `DecodeFromString (EncodeToString b) = b` for every byte string -/
+theorem hex_roundtrip (bs : List Nat) (h : ∀ b ∈ bs, b < 256) :
+    ByteCodec.decodeFromString (ByteCodec.encodeToString bs) = some bs := ByteCodec.decode_encode bs h
+
+/-- equal canonical spellings ⇔ equal bytes (hashes and keys may be compared as strings) -/
+theorem hex_spelling_injective (a b : List Nat) (ha : ∀ x ∈ a, x < 256) (hb : ∀ x ∈ b, x < 256) :
+    ByteCodec.encodeToString a = ByteCodec.encodeToString b ↔ a = b :=
+  ⟨ByteCodec.encode_injective a b ha hb, fun h => by rw [h]⟩
+
+/-- **signature_roundtrip**: `DecodeSignature (EncodeSignature r s) = (r, s)` for all r, s ≥ 0 -/
+theorem signature_roundtrip (r s : Nat) :
+    ByteCodec.decodeSignature (ByteCodec.encodeSignature r s) = some (Int.ofNat r, Int.ofNat s) :=
+  ByteCodec.decode_encode_signature r s
+
+/-- equal canonical signature strings ⇔ equal (r, s) -/
+theorem signature_spelling_injective (r s r' s' : Nat) :
+    ByteCodec.encodeSignature r s = ByteCodec.encodeSignature r' s' ↔ r = r' ∧ s = s' :=
+  ⟨ByteCodec.encodeSignature_injective r s r' s', fun h => by rw [h.1, h.2]⟩
+
+/-- non-vacuity: the bytes 00 ff 0a and the pair (35, 36) -/
+example : ByteCodec.encodeToString [0, 255, 10] = [48, 88, 48, 48, 70, 70, 48, 65] := by decide
+example : ByteCodec.decodeFromString [48, 88, 48, 48, 70, 70, 48, 65] = some [0, 255, 10] := by decide
+example : ByteCodec.encodeSignature 35 36 = [122, 124, 49, 48] := by
+  simp [ByteCodec.encodeSignature, ByteCodec.text36, ByteCodec.digitsLE, ByteCodec.digit36]
 
 end Babble.Props.C15
